@@ -7,6 +7,13 @@ CHECKS = {
  'C08': dict(sec='2/C08', tech='exhaustive enumeration of all operand pairs / index expressions up to a width bound (engine D) + explicit-state BFS to fixpoint over mutation histories on a real Bits object (engine H), against a (size,value) integer model',
              text='Every operator of Bits is executed on every vector / ordered pair of vectors up to width 6 (thorough 8), every index expression on widths <=5 (6), and every mutation history on one live vector is explored breadth-first to its fixpoint; each result is compared with an independent (n,x) integer model, operands and aliases are re-read after every call.',
              note='Trusted: the 40-line integer model in mc/checks/c08.py. Widths above the bound are covered only at the word-boundary alphabet (subcheck wide, not exhaustive).'),
+
+ 'C01': dict(sec='2/C01', tech='exhaustive enumeration of every bit length / byte length / container shape up to a block bound (engine P) and of preset counter states on live objects (engine H), against an independent bit-granular reference bound to hashlib',
+             text='Every bit length 1..2B+cs+16 (3 data patterns), every byte length 0..4 blocks, longer containers, over-long bit lengths and preset length counters beyond one word are executed on the real hash objects of all 10 algorithms and compared with hashlib / a bit-granular reference whose constants are derived, not copied.',
+             note='Trusted: hashlib (OpenSSL) and mc/refs/mdsha.py (self-tested against hashlib on 2400 messages and published MD4/SHA-0/bit-oriented vectors at the start of each run). Data values outside the fixed patterns and lengths beyond the bound are not covered.'),
+ 'C07': dict(sec='2/C07', tech='exhaustive enumeration of all vectors up to width 11/16 and all byte strings up to 2 bytes under every bit order (engine D), every byte length 1..40 (engine P), against an integer model',
+             text='All constructors, all conversions out and all round trips are executed for every (size,value) up to width 11 (thorough 16), every byte string of length <=2 under bitorder -1/+1/0/2, every byte length 1..40 under every dividing group size, and compared with an independent integer model of the documented bit orders.',
+             note='Trusted: the integer model in mc/checks/c07.py (model_load, 12 lines). Larger widths are covered only on the boundary-value alphabet the property itself names.'),
 }
 
 PENDING = {}
